@@ -93,9 +93,10 @@ let ctl () =
       (* hypotheses of the tracking theorem, evaluated on the real trace period by period *)
       let pre = !cur in
       if boundary pre then begin
+        (* a boundary-to-boundary interval ends here: count it, and whether the tracking hypotheses held throughout *)
         if !in_period then begin incr periods; if !period_ok then incr good_periods end;
         in_period := true; period_ok := true; pf := false;
-        (match !monitor with None -> monitor := Some mon0 | Some _ -> ())
+        monitor := Some mon0
       end;
       if !in_period then begin
         if not (track_good !pf pre o) then period_ok := false;
@@ -106,12 +107,11 @@ let ctl () =
       incr steps;
       (* the framing monitor runs on the model's events while the hypotheses hold *)
       (match !monitor with
-       | Some m when !in_period && !period_ok ->
+       | Some m when !period_ok ->
          (match mon_step m ev with
           | Some m' -> monitor := Some m'; if has_decode ev then incr mon_periods
-          | None -> incr mon_viol; monitor := None; in_period := false)
-       | Some _ -> monitor := None; in_period := false
-       | None -> ());
+          | None -> incr mon_viol; monitor := None)
+       | _ -> monitor := None);
       if cbs > 0 && not (has_decode ev) then begin incr bad; note (Printf.sprintf "step %d: frame callback without a model decode event" !steps) end;
       if has_update ev then pending_update := true;
       if not (visible_equal s' ob) then begin
